@@ -32,6 +32,10 @@ package html
 //@   loop 1 decreases len(b) - rangeindex
 
 //@ func Lexer.atCaseInsensitive
+// matches b (given in lower case) against the input ignoring the case of ASCII letters, byte by byte in any mixture
+//@   ensures[F,C09] @ci-match: result ==> forall(k, 0, len(b), l.r.buf[l.r.pos+k] == b[k] || (l.r.buf[l.r.pos+k] + 32) % 256 == b[k])
+//@   ensures[F,C09] @ci-mismatch: !result ==> exists(k, 0, len(b), l.r.buf[l.r.pos+k] != b[k+0] && (l.r.buf[l.r.pos+k] + 32) % 256 != b[k+0])
+//@   loop 1 invariant[F] forall(j, 0, rangeindex+1, l.r.buf[l.r.pos+j] == b[j] || (l.r.buf[l.r.pos+j] + 32) % 256 == b[j])
 //@   requires[S] l != nil && l.r != nil && bufInv(l.r) && forall(k, 0, len(b), b[k] != 0 && b[k] != 32)
 //@   ensures[S]  result ==> l.r.pos + len(b) <= len(l.r.buf)-1
 //@   loop 1 invariant -1 <= rangeindex && rangeindex < len(b) && l.r.pos + rangeindex + 1 <= len(l.r.buf)-1
@@ -175,6 +179,9 @@ package html
 //@   loop * decreases len(l.r.buf) - l.r.pos
 
 //@ func Lexer.shiftRawText
+// only script data has the '<!--' escape states; the other raw-text elements end at their end tag whatever they contain
+//@   loop 4 invariant[F] @script-only: l.rawTag == Script
+//@   loop 5 invariant[F] @script-only-name: l.rawTag == Script
 // script data inside '<!--': a '<script' tag name enters the double-escaped state, a '</script' leaves it (and ends the raw
 // text when not in that state); nothing else changes the state
 //@   loop 4 transition[F,C09] @double-escape: inScript <==> ite(prev(l.r.buf[l.r.pos]) == '<' && h#2 == Script, !isEnd, prev(inScript))
@@ -263,6 +270,8 @@ package html
 //@   ensures[F,C17] @quote-kept: !sameSlice(result, b) && ((old(cnt(b, '\'', 0, len(b))) == 0 && origQuote == '\'') || (old(cnt(b, '"', 0, len(b))) == 0 && origQuote == '"')) ==> result[0] == origQuote && len(result) == len(b) + 2
 //@   ensures[F,C17] @length: !sameSlice(result, b) && (result[0] == '"' || result[0] == '\'') ==> len(result) == len(b) + 2 + 4 * ite(result[0] == '"', old(cnt(b, '"', 0, len(b))), old(cnt(b, '\'', 0, len(b))))
 //@   ensures[F,C17] @no-raw-quote: !sameSlice(result, b) ==> forall(k, 1, len(result)-1, result[k] != result[0])
+// ... and it IS left unquoted whenever that is allowed: no byte needs quoting and quotes are not demanded
+//@   ensures[F,C17] @unquoted-when-possible: old(forall(k, 0, len(b), !charTable[b[k]])) && (!mustQuote || origQuote == 0) ==> sameSlice(result, b)
 //@   ensures[F,C17] @unquoted: sameSlice(result, b) ==> forall(k, 0, len(b), !charTable[b[k]]) && (!mustQuote || origQuote == 0)
 //@   ensures[F,C17] @quoted: !sameSlice(result, b) ==> len(result) >= 2 && result[0] == result[len(result)-1] && (result[0] == '"' || result[0] == '\'' || result[0] == origQuote)
 //@   loop 1 invariant -1 <= rangeindex && rangeindex < len(b) && singles == cnt(b, '\'', 0, rangeindex+1) && doubles == cnt(b, '"', 0, rangeindex+1)
